@@ -24,9 +24,6 @@ M = [
   ("gc-unlink-before-positions", "src/multi_record_log.rs",
    "            num_bytes_written += self.record_empty_queues_position()?;\n",
    "            self.record_log_writer.directory().gc()?;\n            num_bytes_written += self.record_empty_queues_position()?;\n", ["C02", "C04"]),
-  ("take-first-unused-pops-last-file", "src/rolling/file_number.rs",
-   "        if self.files.len() < 2 {\n            return None;\n        }",
-   "        if self.files.len() < 1 {\n            return None;\n        }", ["C01", "C06"]),
   ("gc-never-deletes", "src/rolling/directory.rs",
    "        self.files.count() >= 2 && self.files.first().can_be_deleted()",
    "        self.files.count() >= 3 && self.files.first().can_be_deleted()", ["C06"]),
